@@ -132,7 +132,7 @@ Lemma conv_rec_miss_inv : forall f te top ty cur id tn fs st v st',
     conv (S f) te top ty cur (SRec id tn fs) st = Ok (v, st') ->
     exists d bty base b st1,
       find_reg te tn = Some d /\ rec_base f te top ty cur (s_name d) = Some (bty, base) /\
-      fold_left (fill_step (resolve f te (s_name d)) te bty (conv f te false)) fs (Ok (base, st)) = Ok (b, st1) /\
+      fold_left (fill_step (resolve_key f te (s_name d)) te bty (conv f te false)) fs (Ok (base, st)) = Ok (b, st1) /\
       rec_finish top ty id (s_name d) b st1 = (v, st').
 Proof.
   intros f te top ty cur id tn fs st v st' Hc H.
@@ -306,8 +306,8 @@ Inductive sub (te : tenv) : call -> call -> Prop :=
 | sub_field : forall f top ty cur id tn fs1 kv fs2 st v st' d bty base b1 sta path sty curv nv stb,
     cache_find id st = None -> find_reg te tn = Some d ->
     rec_base f te top ty cur (s_name d) = Some (bty, base) ->
-    fold_left (fill_step (resolve f te (s_name d)) te bty (conv f te false)) fs1 (Ok (base, st)) = Ok (b1, sta) ->
-    resolve f te (s_name d) (fst kv) = Some path -> slot_type te bty path = Ok sty -> get_path b1 path = Some curv ->
+    fold_left (fill_step (resolve_key f te (s_name d)) te bty (conv f te false)) fs1 (Ok (base, st)) = Ok (b1, sta) ->
+    resolve_key f te (s_name d) (fst kv) = Some path -> slot_type te bty path = Ok sty -> get_path b1 path = Some curv ->
     sub te (mkCall (S f) top ty cur (SRec id tn (fs1 ++ kv :: fs2)) st v st')
         (mkCall f false sty curv (snd kv) sta nv stb).
 
